@@ -19,7 +19,7 @@
                       | 1 tree 5 (1 nmods mod* nedges edge* den | 2 kind | 9 site)
    see the serialisers below for tree / mod / edge. *)
 From Coq Require Import List NArith Bool.
-From DesVerif Require Import Common.Codec Ndl.Bytes Ndl.Grammar Ndl.Def Ndl.Transform Ndl.Build Ndl.Denote.
+From DesVerif Require Import Common.Codec Ndl.Bytes Ndl.Grammar Ndl.Def Ndl.Transform Ndl.Build Ndl.Denote Ndl.Realisable.
 Import ListNotations.
 Open Scope N_scope.
 
@@ -146,19 +146,23 @@ Definition dedup_sorted (l : list N) : list N :=
   fold_right (fun x acc => match acc with y :: _ => if x =? y then acc else x :: acc | [] => [x] end) []
              (concat (sort_lists (map (fun x => [x]) l))).
 
+(* [den] = 1 iff the built state equals the flattening of the denoted tree and the tree is [realisable];
+   a failing build of a realisable tree (impossible, BuildTotal.realisable_builds) would print a trailing 0 *)
 Definition run_build (d : Def) (n : Node) : list N :=
   if negb (names_ok n) then [4] else
+  let bad := if realisable registered n then [0] else [] in
   5 :: match build registered n with
        | Ok st =>
          let out := ser_flat (bs_mods st) (state_gates st) (state_edges st) in
          let den := match denote_tree d with
                     | Some dn => if list_eqb N.eqb out (ser_flat (den_mods dn []) (den_gates dn []) (conn_set (den_conns dn []) []))
+                                    && realisable registered n
                                  then 1 else 0
                     | None => 1
                     end in
          1 :: out ++ [den]
-       | Err k => [2; k]
-       | Panic s => [9; s]
+       | Err k => [2; k] ++ bad
+       | Panic s => [9; s] ++ bad
        | OutOfFuel => [8]
        end.
 
